@@ -53,7 +53,7 @@ def stream_events(tid, words, accel, exps, bases):
 
 
 def api_items(run, nlists, sd, accels):
-    res, finals = tlc.simulate_final_states("OpSeq", "OpSeq.cfg", nlists, 133, sd + 23)
+    res, finals = tlc.simulate_final_states("OpSeq", "OpSeq.cfg", nlists, 139, sd + 23)
     run.add_mc("OpSeq(simulate)", res)
     out = []
     for st in finals:
